@@ -355,6 +355,20 @@ def run(tier, seed):
             if vals != [float(k + 1), float(k + 11)]:
                 ofail.append({"config": etext, "lines": [], "file": fn, "real_rows": [str(v) for v in vals], "expected_points": [str(float(k + 1)), str(float(k + 11))],
                               "tag": {"kind": "attribution"}})
+    # a dropped line leaves no trace: no data point, and no audit round at its time stamp either (an observer of `t`
+    # sees one row per round)
+    for badline, why in (("100 t0=oops", "malformed number"), ("100 t0=", "empty number"), ("100 t0=1e", "truncated exponent")):
+        psigs = [{"name": "s0", "tag": "t0", "typ": "scalar", "ts": "deltasecs"}]
+        pmem = [{"name": "o0", "cond": None, "assigns": [], "expect": None, "watches": [("a", "s0"), ("", "t")]}]
+        plines = [("a", "1 t0=3"), ("a", badline), ("a", "2 t0=4")]
+        ptext = cfg_text(psigs, ["a"], pmem)
+        pr = impl.call("audition", Args={"Parse": {"Text": ptext}, "EpochUnix": EPOCH, "WithCollector": True, "Lines": [{"Actor": a, "Line": l} for a, l in plines]})
+        rows = [l.split()[0] for l in ((pr.get("Csv") or {}).get("o0..t.csv") or "").splitlines() if l.split()]
+        rep.case(("dropped-line-round", badline))
+        rep.count("dropped line: rounds observed through `watches t`")
+        if any(abs(float(x) - 100.0) < 1e-6 for x in rows):
+            ofail.append({"config": ptext, "lines": plines, "file": "o0..t.csv", "real_rows": rows, "expected_points": ["rounds at 0, 1, 2 and the end of the play only"],
+                          "tag": {"kind": "round-for-a-dropped-line"}, "problem": "%s: the dropped line still caused an audit round at its time stamp" % why})
     # a large cast: 40 actors, each with a watched signal that speaks twice, some time apart (40 + 40 data files are
     # written to in turn: every file must still hold all its points at the end)
     big = ("role meter\n  :wait sleep 1.2\n  spotlight echo \"v=$((i+1))\"; sleep 0.6; echo \"v=$((i+101))\"; sleep 30\n"
